@@ -1,6 +1,92 @@
 import BinlogVerif.Reader.Bread
+import BinlogVerif.Lemmas.NoTrapBread
 /-
-  C09 — Reader robustness.  (theorems under construction)
+  C09 — Reader robustness.
+
+  `Bread.run sorted fmt dateFmt file` models `bread [-s] -f fmt -d dateFmt file` on ARBITRARY file
+  bytes, ARBITRARY event format strings and ARBITRARY date format strings (entry stream → event
+  stream → `PrettyPrinter`/`ToStringVisitor` → `mserialize::visit` → time printing).  In the model
+  an out-of-bounds access or a failed `assert` is the error `Err.trap _`; every other error is a
+  C++ exception thrown on purpose, which `bread` catches as `std::exception`.
+
+  * No assertion failure, no out-of-bounds read: `c09_no_trap`, `c09_text_output_stream_no_trap`.
+  * Errors are reported only as standard exceptions: `c09_error_is_std`.
+  * Termination: by construction.  Every model function is a total Lean function — structural
+    recursion on a list or on explicit fuel (`splitEntriesFuel`, `visitImpl`'s `maxRec`, the tuple
+    and field loops, `printEventMessage.go`, `resolveRecursiveTag.go`, …); nothing is `partial`, so
+    `Bread.run` yields a result for every input.  The recursion of the tag-driven visitation is
+    bounded by the C++ counter `max_recursion = 2048`: `c09_recursion_bounded`.
+
+  The proofs are in `Lemmas/NoTrapBase.lean` (checked readers), `Lemmas/NoTrapVisit.lean`
+  (`singular`, `visit_impl` for an arbitrary non-trapping visitor) and `Lemmas/NoTrapBread.lean`
+  (time printers, `ToStringVisitor`, `PrettyPrinter`, event stream, print loop).
 -/
 namespace BinlogVerif.C09
+open BinlogVerif
+
+/-- **C09 (errors are standard exceptions).**  Whatever the input file, the event format and the
+    date format, an error that ends a `bread` run is never a trap (`isTrap = false`): it is one of
+    `overflow`, `invalidSource`, `truncSize`, `truncPayload`, `recursion`, `invalidTag`,
+    `sizeMismatch` — the exceptions derived from `std::exception` that `bread` catches and reports
+    with exit status 3. -/
+theorem c09_error_is_std (sorted : Bool) (fmt dateFmt file : Bytes) (e : Err)
+    (h : (Bread.run sorted fmt dateFmt file).2 = some e) : e.isTrap = false := by
+  rw [run_error_eq] at h
+  exact printUntilError_noTrap fmt dateFmt _ (itemsOf_noTrap file) e h
+
+/-- **C09 (no trap).**  For every input file, event format and date format — sorted or not — the
+    reader never trips an assertion and never reads out of bounds. -/
+theorem c09_no_trap (sorted : Bool) (fmt dateFmt file : Bytes) (w : String) :
+    (Bread.run sorted fmt dateFmt file).2 ≠ some (.trap w) := by
+  intro h
+  have := c09_error_is_std sorted fmt dateFmt file _ h
+  simp [Err.isTrap] at this
+
+/-- **C09 (per-event renderer).**  The text of one event, as a `TextOutputStream` produces it,
+    never traps: any event (any source, format string, argument tags and argument bytes), any
+    writer properties, any clock sync, any event format and date format. -/
+theorem c09_text_output_stream_no_trap (fmt dateFmt : Bytes) (ev : Event) (wp : WriterProp)
+    (cs : ClockSync) (w : String) : Bread.renderEvent fmt dateFmt ev wp cs ≠ .error (.trap w) :=
+  renderEvent_noTrap fmt dateFmt ev wp cs w
+
+/-- **C09 (visitation never traps).**  `mserialize::visit` on an arbitrary tag and arbitrary input
+    bytes fails only with the visitor's own errors, `Range overflow`, `invalidTag` or the recursion
+    limit — for ANY visitor whose callbacks do not trap, and any recursion budget. -/
+theorem c09_visit_no_trap {σ : Type} (v : Visit.Visitor σ) (hv : v.NoTrap) (full : Bytes)
+    (maxRec : Nat) (tag : Bytes) (st : σ) (input : Bytes) (w : String) :
+    Visit.visitImpl v full maxRec tag st input ≠ .error (.trap w) :=
+  visitImpl_noTrap v full hv maxRec tag st input w
+
+/-- **C09 (bounded recursion).**  `visit` starts `visit_impl` with the budget 2048; every nested
+    call gets one less (see `Visit.visitImpl`), and with budget 0 `visit_impl` throws the
+    `recursion` exception whatever the tag and the input: the nesting depth is at most 2048. -/
+theorem c09_recursion_bounded :
+    (∀ {σ : Type} (v : Visit.Visitor σ) (tag : Bytes) (st : σ) (input : Bytes),
+      Visit.visit v tag st input = Visit.visitImpl v tag 2048 tag st input) ∧
+    (∀ {σ : Type} (v : Visit.Visitor σ) (full tag : Bytes) (st : σ) (input : Bytes),
+      Visit.visitImpl v full 0 tag st input = .error .recursion) ∧
+    (∀ (full tag : Bytes), Tag.singularImpl full 0 tag = .error .recursion) := by
+  refine ⟨fun _ _ _ _ => rfl, fun v full tag st input => ?_, fun full tag => ?_⟩
+  · unfold Visit.visitImpl; rfl
+  · unfold Tag.singularImpl; rfl
+
+/-! ### non-vacuity: the error channel is really exercised (kernel evaluation of the model) -/
+
+section Examples
+
+/-- the trap is expressible: the model of `assert(0 <= i && i < 100)` fails for 100 -/
+example : Time.printTwoDigits 100 = .error (.trap "assert") := by decide
+
+/-- two bytes: "Failed to read entry size" -/
+example : (Bread.run false [37, 109] [] [1, 0]).2 = some .truncSize := by decide
+/-- size field 1, no payload -/
+example : (Bread.run false [37, 109] [] [1, 0, 0, 0]).2 = some .truncPayload := by decide
+/-- one-byte payload: the tag read overflows the range -/
+example : (Bread.run true [37, 109] [] [1, 0, 0, 0, 7]).2 = some .overflow := by decide
+/-- an event of the unknown source 7 -/
+example : (Bread.run true [37, 109] [] [8, 0, 0, 0, 7, 0, 0, 0, 0, 0, 0, 0]).2
+    = some .invalidSource := by decide
+
+end Examples
+
 end BinlogVerif.C09
